@@ -18,6 +18,7 @@ def main():
     ap.add_argument("--seed", type=int, default=int(os.environ.get("VERIF_SEED", "1") or 1))
     ap.add_argument("--replay")
     ap.add_argument("--setup", action="store_true")
+    ap.add_argument("--bless", action="store_true", help="record the current fingerprints of the modelled sources")
     a = ap.parse_args()
     if a.setup:
         ctx = core.Ctx("setup", "quick", 0)
@@ -37,6 +38,9 @@ def main():
         # a failing setup build is reported by the individual checks, not here
         return 0
     mod = importlib.import_module("checks." + a.pid.lower())
+    if a.bless:
+        core.bless_sources(mod.SPEC.pid, mod.SPEC.source_files)
+        return 0
     if a.replay:
         return mod.replay(a.replay) if hasattr(mod, "replay") else flow.replay(mod.SPEC, a.replay)
     if hasattr(mod, "main"):
